@@ -65,7 +65,7 @@ theorem Ys.unres_labelsA : ∀ y : Ys, Ys.labelsA (Ys.unres y) = Ys.labelsA y
   | .sub y => by simp [Ys.unres, Ys.labelsA, Ys.unres_labelsA y]
   | .pval _ => rfl
   | .ofut _ _ => rfl
-  | .gco _ => rfl
+  | .gco y => by simp [Ys.unres, Ys.labelsA, Ys.unres_labelsA y]
 theorem YsL.unres_labelsA : ∀ l : YsL, YsL.labelsA (YsL.unres l) = YsL.labelsA l
   | .nil => rfl
   | .cons y l => by simp [YsL.unres, YsL.labelsA, Ys.unres_labelsA y, YsL.unres_labelsA l]
